@@ -143,8 +143,17 @@ func genOutCase(rng *rand.Rand, id string) outCase {
 	oc.Style = []string{"none", "hash", "full"}[rng.Intn(3)]
 	// witnesses: sharing patterns over a small pool of ids
 	pool := 1 + rng.Intn(4)
+	distinct := rng.Intn(4) == 0 // every metric its own witness: ten and more footnotes
+	k := 0
 	for _, it := range outItems {
-		if it.Wit && rng.Intn(5) != 0 {
+		if !it.Wit {
+			continue
+		}
+		k++
+		switch {
+		case distinct:
+			oc.Witness[it.Field] = fmt.Sprintf("%040x", 0xabc000+k)
+		case rng.Intn(5) != 0:
 			oc.Witness[it.Field] = fmt.Sprintf("%040x", 0xabc000+rng.Intn(pool))
 		}
 	}
@@ -444,7 +453,9 @@ func runOutputCases(c *Ctx, driver string, ocs []outCase, keep func(pred string)
 	c.Note("%d (HistorySize, threshold) reports rendered by the real code and judged by TLC; %d rejected", len(cs), len(bad))
 }
 
-func isFootnotePred(p string) bool { return strings.HasPrefix(p, "footnote") || strings.HasPrefix(p, "citation") }
+func isFootnotePred(p string) bool {
+	return strings.HasPrefix(p, "footnote") || strings.HasPrefix(p, "citation")
+}
 
 func checkC11(c *Ctx) {
 	c.Ev.Level = "model_checking"
